@@ -328,7 +328,9 @@ NOT_YET = {}
 
 
 COMMON_NOTE = ("The input, configuration and history dimensions the harness generates (argument forms, leftovers, reused objects, "
-               "faults) are listed per property in DESIGN.md 9.7; the seeded changes it was tried against in DESIGN.md 10.")
+               "faults) are listed per property in DESIGN.md 9.7; the seeded changes it was tried against in DESIGN.md 10 (the round i summary "
+               "names the regions still open); values returned by the code under test are observed defensively, so that a broken "
+               "library gives a VIOLATION and not a machinery failure (DESIGN.md 9.8).")
 EXTRA_NOTE = {
     "C04": "Two kinds of fault: an interruption after any step, and a shank file damaged before the verification (spec action Damage).",
     "C06": "The batch loop and the hand-over between workers are also discharged for unbounded lengths by Apalache "
